@@ -20,9 +20,18 @@ theorems are full-strength; what was wrong is stated about explicitly named
 OLD definitions (`resultIntOld`, `bitLenOld`, `setIntOld`).
 Still violated (a `…_witness` negation next to the `…_partial` theorem):
   for negative values `Sizes` = 64 while `InputSizes` = bit length of |v|,
-  which is too short for the two's complement form.
+  which is too short for the two's complement form;
+  for a NESTED struct argument `InstantiateWithSizes` hands member `idx` the
+  tail `sizes[idx:]`, so a member that follows a nested struct with two or
+  more leaves is sized from an earlier input than the one it receives
+  (`C13_instantiate_nested_sizes_witness`).
+
+The size-inference theorems with struct members (`C13_instantiate_…`,
+`C13_mainarg_…`) are about `Ty.inst` / `mainArg` of Model/IoInst.lean, lemmas
+in Proofs/IoInst.lean.
 -/
 import MpcVerif.Proofs.IoArg
+import MpcVerif.Proofs.IoInst
 
 namespace Mpc
 open IoArg
@@ -553,5 +562,144 @@ theorem C13_member_agreement_bool (n : Nat) (st : StrFacts) (b : Bool) (hb : st.
     cases i with
     | zero => rfl
     | succ k => simp [Nat.testBit_succ]
+
+/-! ## Size inference with struct members (`types.Info.InstantiateWithSizes`) -/
+
+/-- the argument of the demonstration program: `struct { n uint; key [8]byte; tag uint16 }` -/
+def demoGarbler : Ty :=
+  .struct true 80 0 0 [.base .uint false 0 0 0, .elem .array true 64 8 0 (.base .uint true 8 0 0),
+    .base .uint true 16 0 64]
+
+/-- `demoGarbler` instantiated from the inputs `5`, `0xa0a1`, `0x3132`: `n` is uint3, `key` stays `[8]uint8` on
+wires 3..66, `tag` stays uint16 on wires 67..82 -/
+def demoGarblerInst : Ty :=
+  .struct true 83 0 0 [.base .uint true 3 0 0, .elem .array true 64 8 3 (.base .uint true 8 0 0),
+    .base .uint true 16 0 67]
+
+/-- Identity on sized types: a type in which every leaf has its declared size
+(scalars / arrays with `IsConcrete`, structs of such members, at any nesting
+depth) and which has the struct layout is returned unchanged, whatever the
+size vector says (shorter, equal or longer literals than declared) — as long
+as the vector has an entry for every member.  In particular the argument loop
+of `Package.Compile` leaves it alone. -/
+theorem C13_instantiate_identity_on_sized (t : Ty) (sizes : List Nat) (hs : t.sized = true)
+    (hl : t.layoutOk = true) (hn : t.span ≤ sizes.length) :
+    t.inst sizes = .ok t ∧ t.mainArgType sizes = .ok t := by
+  refine ⟨Ty.inst_sized t sizes hs hl hn, ?_⟩
+  unfold Ty.mainArgType
+  split
+  · rfl
+  · exact Ty.inst_sized t sizes hs hl hn
+
+/-- non-vacuity: `struct { a uint8; key [8]byte; p struct { x int4; f bool } }` with a short size vector entry for `key` -/
+example : ∃ (t : Ty) (sizes : List Nat), t.sized = true ∧ t.layoutOk = true ∧ t.span ≤ sizes.length ∧
+    t.inst sizes = .ok t :=
+  ⟨.struct true 77 0 0 [.base .uint true 8 0 0, .elem .array true 64 8 8 (.base .uint true 8 0 0),
+      .struct true 5 0 72 [.base .int true 4 0 0, .base .bool true 1 0 4]], [3, 16, 2, 1],
+    by decide, by decide, by decide, C13_instantiate_identity_on_sized _ _ (by decide) (by decide) (by decide) |>.1⟩
+
+/-- Only unsized leaves are touched (induction over the type): whenever
+`InstantiateWithSizes` succeeds, the result has the same tags, the same
+members in the same order, the same element types, and the same width and
+length for every scalar/array that is `IsConcrete` — at any nesting depth
+(`Ty.agree`); what it writes are the widths of unsized scalars, the lengths of
+unsized arrays and of slices, and the struct bookkeeping, which comes out
+consistent: offsets are the running sums of the member widths and a struct's
+`Bits` is the sum of its members (`Ty.layoutOk`). -/
+theorem C13_instantiate_touches_only_unsized (t t' : Ty) (sizes : List Nat) (h : t.inst sizes = .ok t') :
+    t.agree t' ∧ t'.layoutOk = true :=
+  ⟨Ty.inst_agree t sizes t' h, Ty.inst_layout t sizes t' h⟩
+
+/-- non-vacuity, a struct mixing both: `struct { n uint; key [8]byte; tag uint16 }` instantiated from the inputs
+`5`, `0xa0a1` (a SHORT literal for `key`), `0x3132`: `n` becomes uint3, `key` stays `[8]uint8` on wires 3..66, `tag`
+stays uint16 on wires 67..82 -/
+example : demoGarbler.inst [3, 16, 16] = .ok demoGarblerInst := rfl
+
+/-- Sized members keep their type in the flattened argument: position by
+position, a sized leaf of the declared type appears in `flattenStruct` of the
+instantiated type with the `Info` that `IOArg.Parse` / `Set` / `Result` read
+(same tag, width, length, element type).  With `C13_parse_compound_wires` /
+`C13_set_compound_wires` (wires = members at the running offsets) this is the
+statement that a fixed-size member's bits depend on its own text only. -/
+theorem C13_instantiate_sized_members_keep_type (t t' : Ty) (sizes : List Nat) (h : t.inst sizes = .ok t') :
+    t'.leaves.length = t.leaves.length ∧
+    ∀ k (hk : k < t.leaves.length), t.leaves[k].sized = true →
+      ∃ l', t'.leaves[k]? = some l' ∧ l'.toInfo = t.leaves[k].toInfo := by
+  have hg := agreeAll_get _ _ (Ty.agree_leaves t t' (Ty.inst_agree t sizes t' h))
+  refine ⟨hg.1, ?_⟩
+  intro k hk hs
+  obtain ⟨g, h1, h2⟩ := hg.2 k hk
+  exact ⟨g, h1, Ty.agree_sized_toInfo _ g (Ty.leaves_not_struct t _ (List.getElem_mem hk)) hs h2⟩
+
+example : ∃ (t t' : Ty) (sizes : List Nat) (k : Nat) (hk : k < t.leaves.length), t.inst sizes = .ok t' ∧
+    t.leaves[k].sized = true ∧ t.concrete = false :=
+  ⟨demoGarbler, demoGarblerInst, [3, 16, 16], 1, by decide, rfl, by decide, by decide⟩
+
+/-- Inferred width of an unsized integer member, flat struct — PARTIAL.  Full
+statement (false, see `C13_instantiate_nested_sizes_witness`): the k-th leaf of
+the flattened argument, which is the one that receives the k-th input string,
+is instantiated from `sizes[k]`.  Proved: member `k` of a struct is instantiated
+from `sizes[k:]`, so an unsized `int`/`uint` member at position `k` of the
+struct itself gets width `sizes[k]`; this is the k-th leaf exactly when no
+earlier member is a struct. -/
+theorem C13_instantiate_member_width_partial (c : Bool) (b n o : Nat) (fs : List Ty) (sizes : List Nat) (t' : Ty)
+    (h : (Ty.struct c b n o fs).inst sizes = .ok t') (k : Nat) (hk : k < fs.length)
+    (tag : Tag) (bk nk ok : Nat) (hf : fs[k] = .base tag false bk nk ok) (htag : tag = .int ∨ tag = .uint) :
+    ∃ c' b' o' fs' s off, t' = .struct c' b' n o' fs' ∧ sizes[k]? = some s ∧
+      fs'[k]? = some (.base tag true s nk off) := by
+  cases sizes with
+  | nil => simp [Ty.inst] at h
+  | cons s0 rest =>
+    simp only [Ty.inst] at h
+    cases hfi : instFields fs (s0 :: rest) 0 with
+    | error e => simp [hfi] at h
+    | ok p =>
+      obtain ⟨fs', total⟩ := p
+      simp [hfi] at h; subst h
+      obtain ⟨f', off, hf', hget⟩ := (instFields_member fs (s0 :: rest) 0 fs' total hfi).2 k hk
+      rw [hf] at hf'
+      cases hd : (s0 :: rest).drop k with
+      | nil => rw [hd] at hf'; simp [Ty.inst] at hf'
+      | cons s tl =>
+        rw [hd] at hf'
+        have hs : (s0 :: rest)[k]? = some s := by
+          have := List.getElem?_drop (xs := s0 :: rest) (i := k) (j := 0)
+          rw [hd] at this; simpa using this.symm
+        refine ⟨true, total, o, fs', s, off, rfl, hs, ?_⟩
+        rcases htag with rfl | rfl <;> simp [Ty.inst] at hf' <;> subst hf' <;> simpa [Ty.setOff] using hget
+
+example : ∃ (fs : List Ty) (sizes : List Nat) (t' : Ty) (k : Nat) (hk : k < fs.length),
+    (Ty.struct true 80 0 0 fs).inst sizes = .ok t' ∧ fs[k] = .base .uint false 0 0 0 :=
+  ⟨[.base .uint false 0 0 0, .elem .array true 64 8 0 (.base .uint true 8 0 0), .base .uint true 16 0 64],
+    [3, 16, 16], demoGarblerInst, 0, by decide, rfl, rfl⟩
+
+/-- Negation witness of the full statement, nested struct argument
+`struct { in struct { x uint; y uint }; b uint }` with the inputs `1`, `255`,
+`65535` (sizes 1, 8, 16): member `b` is the third leaf and receives the third
+input, but it is instantiated from `sizes[1]` (the outer struct passes
+`sizes[idx:]` to member `idx`, and the inner struct has already read two
+entries): `b` becomes uint8 and `Parse` keeps only the low 8 bits of 65535. -/
+theorem C13_instantiate_nested_sizes_witness :
+    let t : Ty := .struct true 0 0 0 [.struct true 0 0 0 [.base .uint false 0 0 0, .base .uint false 0 0 0],
+      .base .uint false 0 0 0]
+    (t.inst [1, 8, 16]).toOption.map (fun t' => t'.leaves.map Ty.bits) = some [1, 8, 8] ∧
+    (t.leaves.length = 3) := by
+  decide
+
+/-- the three input strings `5`, `0xa0a1`, `0x3132` as the facts the code reads -/
+def demoInputs : List StrFacts :=
+  [⟨none, false, false, 1, none, some 5⟩, ⟨none, false, true, 6, some (some 0, 4), some 0xa0a1⟩,
+   ⟨none, false, true, 6, some (some 0, 4), some 0x3132⟩]
+
+/-- End to end on the model (`InputSizes` → argument loop of `Compile` →
+`flattenStruct` → `Parse`), the demonstration case: with a short literal for
+the fixed-size member `key`, `n` = 5 sits on wires 0..2, the two given bytes
+of `key` on wires 3..18 followed by 48 zero wires, `tag` on wires 67..82. -/
+theorem C13_mainarg_short_literal_keeps_layout :
+    (mainArg demoGarbler demoInputs).toOption.map (·.2) = some (5 + 0xa1a0 * 2 ^ 3 + 0x3132 * 2 ^ 67) ∧
+    (mainArg demoGarbler demoInputs).toOption.map (·.1.ty.bits) = some 83 := by
+  decide +kernel
+
+example : (mainArg demoGarbler demoInputs).toOption.map (·.1) = some demoGarblerInst.toArg := rfl
 
 end Mpc
